@@ -64,6 +64,14 @@ CLAIMED = {
              "multi-operation requests) applied through Graph, Dataset and ConjunctiveGraph with the default-graph-union switch off/on, "
              "over n=2 (thorough 3) symbolic triples placed in default/g1/g2 by shape; every graph compared with the reference afterwards.",
         ref="DESIGN.md section 3 C10"),
+    "C08": dict(
+        technique="symbolic execution of rdflib's modifier/aggregate evaluators (CrossHair + z3) against the SPARQL definitions; LIMIT/OFFSET and literal values symbolic",
+        text="Bounded symbolic model checking of evalDistinct/OrderBy/Slice/Project/Group/AggregateJoin and the Counter/Sample/Minimum/"
+             "Maximum accumulators: ~45 modifier sets over BGP, UNION and OPTIONAL bases (unbound cells) on 0-3 (thorough 4) symbolic rows "
+             "whose objects are integer literals with symbolic value or symbolic IRIs; DISTINCT/GROUP results as multisets, ORDER BY as "
+             "'same multiset and no later row precedes an earlier one', slices with symbolic LIMIT/OFFSET against position bounds in the "
+             "ordered sequence. SUM/AVG/GROUP_CONCAT values are not claimed.",
+        ref="DESIGN.md section 3 C08"),
 }
 
 NA = {
@@ -71,7 +79,6 @@ NA = {
     "C05": "check not built yet in this commit (planned: engines R + K)",
     "C06": "document-level quad round trips run json/expat/regex scanners over text built from term contents; contents cannot be symbolic (C-level str.__new__), leaving only membership booleans = enumeration, not solver-based checking",
     "C07": "check not built yet in this commit (planned: engines K + R, n3 text forms only)",
-    "C08": "check not built yet in this commit (planned: engine S)",
     "C09": "check not built yet in this commit (planned: engines K + R)",
     "C12": "every parser keys its blank-node label map on text extracted by regex/SAX/JSON; a symbolic label is realised by that extraction (probe: no verdict in 300 s), what remains is a boolean 'same label or not'",
     "C13": "check not built yet in this commit (planned: engine S)",
